@@ -157,6 +157,11 @@ def build_env(fn, keys, never_written):
             m = _re.match(r'^&\((.+)\[n:0\]\)$', bound or '')
             if m and (qtype(p) or '').rstrip().endswith('*'):
                 env[p['id']] = ('ptr', m.group(1), {})
+            # ... or to  &C[0] + <one named quantity>  (the end of the table: first + size)
+            m2 = _re.match(r'^\(&\((.+)\[n:0\]\) \+ ([\w.#:]+(?:\(\))?)\)$', bound or '')
+            if m2 and (qtype(p) or '').rstrip().endswith('*') and m2.group(2).count('(') <= 1:
+                q_ = m2.group(2)
+                env[p['id']] = ('ptr', m2.group(1), {'': int(q_[2:])} if _re.match(r'^n:-?\d+$', q_) else {q_: 1})
     for x in walk(fn):
         if x.get('kind') != 'VarDecl' or 'init' not in x:
             continue
